@@ -487,6 +487,42 @@ AfterFnMrg(stack, a) ==
       [] F.ph = "fnmA" -> SetTop(AddSince(stack, F.fnp.id), [Top(AddSince(stack, F.fnp.id)) EXCEPT !.ph = "work", !.fail = TRUE, !.brk = (a = "b")])
       [] F.ph = "fnm0" -> SetTop(AddSince(stack, F.fnp.id), [Top(AddSince(stack, F.fnp.id)) EXCEPT !.ph = "fin", !.fail = TRUE])
 
+VSetAsSeq(S) == LET RECURSIVE f(_) f(T) == IF T = {} THEN <<>> ELSE LET x == CHOOSE y \in T : TRUE IN <<x>> \o f(T \ {x}) IN f(S)
+VMax(S) == CHOOSE x \in S : \A y \in S : x >= y
+(* ------------- declarative value semantics: ValueOf (C06 .. C10, C15) ---- *)
+RECURSIVE ValueOf(_, _, _)
+ValueOf(n, val, pk) ==
+    LET N == Nodes[n] cl == Classify(n, val, <<>>, pk) F == Frame(n, <<>>, val, NoOb, "E", cl) IN
+    CASE cl.ph = "leafok" -> cl.okv
+      [] N.c \in {"vec", "arr", "tup"} -> RV("list", FALSE, 0, DZero, "", "", [i \in 1..Len(val.e) |-> ValueOf(Child(F, Ob("elem", i)).n, val.e[i], pk)])
+      [] N.c \in {"hset", "bset"} -> RV("set", FALSE, 0, DZero, "", "", VSetAsSeq({ValueOf(N.kids[1], val.e[i], pk) : i \in 1..Len(val.e)}))
+      [] N.c = "opt" -> RV("some", FALSE, 0, DZero, "", "", <<ValueOf(N.kids[1], val, pk)>>)
+      [] N.c = "box" -> ValueOf(N.kids[1], val, pk)
+      [] N.c \in {"hmap", "bmap"} ->
+            RV("map", FALSE, 0, DZero, "", "", VSetAsSeq({[k |-> ParseKey(pk, N.name, val.e[j].k).v, v |-> ValueOf(N.kids[1], val.e[j].v, pk)] : j \in 1..Len(val.e)}))
+      [] N.c \in {"struct", "enum"} ->
+            LET fs == FieldsOfNode(N, cl.vi)
+                ms(fi) == {j \in 1..Len(val.e) : Ob("entry", j) \in cl.pend /\ RouteK(N, cl.vi, F.fkeys, val.e[j].k) = fi}
+                fv(fi) == IF ms(fi) = {} THEN fs[fi].dval ELSE ValueOf(fs[fi].node, val.e[VMax(ms(fi))].v, pk)
+            IN RV(IF N.c = "struct" THEN "struct" ELSE "variant", FALSE, 0, DZero, "",
+                  IF N.c = "struct" THEN N.name ELSE N.variants[cl.vi].ident,
+                  [fi \in 1..Len(fs) |-> [k |-> fs[fi].ident, v |-> fv(fi)]])
+      [] OTHER -> UnitRV
+
+\* C15 (and C06 .. C10): whatever order the members were examined in, the result is the order-free ValueOf,
+\* and (Inv_C02) the report bag is the order-free Faults.  Sets inside values are compared as sets.
+RECURSIVE EqMod(_, _)
+EqMod(a, b) ==
+    IF a.r # b.r \/ a.name # b.name THEN FALSE
+    ELSE CASE a.r \in {"set", "map"} -> /\ Len(a.e) = Len(b.e)
+                                         /\ \A i \in 1..Len(a.e) : \E j \in 1..Len(b.e) :
+                                               IF a.r = "map" THEN a.e[i].k = b.e[j].k /\ EqMod(a.e[i].v, b.e[j].v) ELSE EqMod(a.e[i], b.e[j])
+           [] a.r \in {"list", "some"} -> Len(a.e) = Len(b.e) /\ \A i \in 1..Len(a.e) : EqMod(a.e[i], b.e[i])
+           [] a.r \in {"struct", "variant"} -> Len(a.e) = Len(b.e) /\ \A i \in 1..Len(a.e) : a.e[i].k = b.e[i].k /\ EqMod(a.e[i].v, b.e[i].v)
+           [] a.r = "float" -> TRUE                                     \* the bits of a float are C05's business
+           [] a.r = "json" -> Len(a.e) = 1 /\ Len(b.e) = 1 /\ DocEq(b.e[1], a.e[1])
+           [] OTHER -> a = b
+
 (* ------------------- declarative reference semantics -------------------- *)
 \* Faults(n, val, loc): the reports a keep-going error type must receive, as a sequence (compared as a bag).
 \* A report descriptor is [k, loc, s, x, act, acc].
